@@ -246,7 +246,10 @@ type gtRef struct {
 }
 
 // tally on the delegation graph with the share-class delegations REMOVED and share-class votes ignored
-func (s gtSnap) reference() gtRef {
+func (s gtSnap) reference() gtRef { return s.referenceOf(true) }
+
+// removeSC=false: what the SDK's DEFAULT tally computes (share-class stake inherited by the validator, its vote counted)
+func (s gtSnap) referenceOf(removeSC bool) gtRef {
 	r := gtRef{voted: new(big.Rat), nvBonded: new(big.Rat), bonded: ratInt(s.bonded)}
 	for i := range r.opts {
 		r.opts[i] = new(big.Rat)
@@ -273,7 +276,7 @@ func (s gtSnap) reference() gtRef {
 		r.terms++
 	}
 	for _, d := range s.dels {
-		if d.del == gtSC {
+		if d.del == gtSC && removeSC {
 			if v, ok := vals[d.val]; ok && v.sh.Sign() != 0 {
 				v.sc.Add(v.sc, ratDec(d.shares))
 				r.nvBonded.Add(r.nvBonded, power(v, ratDec(d.shares)))
@@ -281,7 +284,7 @@ func (s gtSnap) reference() gtRef {
 		}
 	}
 	for _, vt := range s.votes {
-		if vt.voter == gtSC {
+		if vt.voter == gtSC && removeSC {
 			continue
 		}
 		if v, ok := vals[vt.voter]; ok {
@@ -478,7 +481,18 @@ func (h *gtHist) tallyPoint(tag string) (gtRes, gtRef) {
 		same := kt.tr.YesCount == res.opts[0].TruncateInt().String() && kt.tr.AbstainCount == res.opts[1].TruncateInt().String() &&
 			kt.tr.NoCount == res.opts[2].TruncateInt().String() && kt.tr.NoWithVetoCount == res.opts[3].TruncateInt().String() &&
 			kt.tr.SpamCount == res.opts[4].TruncateInt().String()
-		e.Oracle("installed_fn_same", same, "%s keeper=%v direct=%s", info, kt.tr, res.String())
+		cls := "other"
+		if !same {
+			def := s.referenceOf(false)
+			near := func(got string, want *big.Rat) bool {
+				g, ok := new(big.Rat).SetString(got)
+				return ok && within(g, want, big.NewRat(2, 1))
+			}
+			if near(kt.tr.YesCount, def.opts[0]) && near(kt.tr.AbstainCount, def.opts[1]) && near(kt.tr.NoCount, def.opts[2]) && near(kt.tr.NoWithVetoCount, def.opts[3]) && near(kt.tr.SpamCount, def.opts[4]) {
+				cls = "default_fn_installed"
+			}
+		}
+		e.Oracle("installed_fn_same", same, "%s class=%s keeper=%v direct=%s", info, cls, kt.tr, res.String())
 	}
 	return res, ref
 }
@@ -852,13 +866,67 @@ func gtHistory(e *Env, n int) {
 	vt, _ := sdkmath.LegacyNewDecFromStr(params.VetoThreshold)
 	exp := ref.outcome(ratDec(q), ratDec(th), ratDec(vt))
 	e.Stat("expected." + exp)
-	if exp != "unclear" {
-		// class of a deviation: would the keeper's own decision procedure give `exp` when fed the exact, unscaled totals?
-		cause := "other"
-		if exp == "pass" && got == "reject" && ref.nvBonded.Sign() > 0 {
-			cause = "threshold_diluted_by_rescaled_total"
-		}
-		e.Oracle("outcome_as_without_nonvoting", got == exp, "%s cause=%s got=%s want=%s voted=%s bonded=%s nvBonded=%s yes=%s abstain=%s no=%s veto=%s", info, cause, got, exp,
-			ref.voted.FloatString(3), ref.bonded.FloatString(0), ref.nvBonded.FloatString(3), ref.opts[0].FloatString(3), ref.opts[1].FloatString(3), ref.opts[2].FloatString(3), ref.opts[3].FloatString(3))
+	if exp == "unclear" {
+		return
 	}
+	detail := fmt.Sprintf("voted=%s bonded=%s nvBonded=%s yes=%s abstain=%s no=%s veto=%s spam=%s", ref.voted.FloatString(3), ref.bonded.FloatString(0), ref.nvBonded.FloatString(3),
+		ref.opts[0].FloatString(3), ref.opts[1].FloatString(3), ref.opts[2].FloatString(3), ref.opts[3].FloatString(3), ref.opts[4].FloatString(3))
+	// (1) the custom function's return values fed to x/gov's tallyStandard (re-implemented on LegacyDec as the keeper does)
+	if res.cls == "ok" {
+		fnOut := gtStandard(res.total, res.total, s.bonded, res.opts, q, th, vt)
+		cause := "other"
+		if fnOut != exp && ref.nvBonded.Sign() > 0 {
+			// would the decision be right if only the QUORUM test used the rescaled total?
+			unscaled := sdkmath.LegacyNewDecFromBigIntWithPrec(new(big.Int).Quo(new(big.Int).Mul(ref.voted.Num(), big.NewInt(1_000_000_000_000_000_000)), ref.voted.Denom()), 18)
+			if gtStandard(res.total, unscaled, s.bonded, res.opts, q, th, vt) == exp {
+				cause = "ratios_use_rescaled_total"
+			}
+		}
+		e.Stat("customfn." + fnOut)
+		e.Oracle("custom_fn_outcome", fnOut == exp, "%s cause=%s got=%s want=%s %s", info, cause, fnOut, exp, detail)
+	}
+	// (2) what the chain actually decided
+	cause := "other"
+	if got != exp {
+		def := s.referenceOf(false)
+		d := def.outcomeDefault(ratDec(q), ratDec(th), ratDec(vt))
+		if d == got || d == "unclear" {
+			cause = "default_fn_installed"
+		}
+	}
+	e.Oracle("outcome_as_without_nonvoting", got == exp, "%s cause=%s got=%s want=%s %s", info, cause, got, exp, detail)
+}
+
+// x/gov keeper.tallyStandard (+ the spam test of Tally) on LegacyDec; totalQ is used for the quorum test, totalR as the
+// denominator of the veto / threshold ratios (the keeper passes the same value for both).
+func gtStandard(totalQ, totalR sdkmath.LegacyDec, bonded sdkmath.Int, r [5]sdkmath.LegacyDec, quorum, threshold, veto sdkmath.LegacyDec) string {
+	if bonded.IsZero() {
+		return "reject"
+	}
+	if !totalQ.IsZero() && r[4].GTE(r[0].Add(r[1]).Add(r[2]).Add(r[3])) {
+		return "reject"
+	}
+	if totalQ.Quo(sdkmath.LegacyNewDecFromInt(bonded)).LT(quorum) {
+		return "reject"
+	}
+	if totalR.Equal(r[1]) || totalR.IsZero() {
+		return "reject"
+	}
+	if r[3].Quo(totalR).GT(veto) {
+		return "reject"
+	}
+	if totalR.Sub(r[1]).IsZero() {
+		return "reject"
+	}
+	if r[0].Quo(totalR.Sub(r[1])).GT(threshold) {
+		return "pass"
+	}
+	return "reject"
+}
+
+// outcome of the DEFAULT tally: same decision procedure, turnout = voted / bonded (no rescaling)
+func (r gtRef) outcomeDefault(quorum, threshold, veto *big.Rat) string {
+	x := r
+	x.nvBonded = new(big.Rat)
+	return x.outcome(quorum, threshold, veto)
 }
